@@ -36,12 +36,12 @@ func init() {
 	runner.Register(&runner.Check{
 		ID:          "C02",
 		Level:       "exploration",
-		Rule:        "PRNG-generated (from, to, amount, signer set, scope) combinations for the public transfer, directly and through a holder contract, interleaved with Alphabet operations; one transaction per block; for every account whose balance decreased (storage diff) the signer set is inspected. distinct = (method, signer class, scopes, address shape, amount class, outcome); non-trivial = changed storage, faulted or refused.",
+		Rule:        "PRNG-generated (from, to, amount, signer set, scope) combinations for the public transfer, directly and through a holder contract, interleaved with Alphabet operations (transferX, mint, burn, lock, ticks through Netmap) and with Balance.newEpoch asked for directly by every signer class while locks are due; one transaction per block; for every account whose balance decreased (storage diff) the signer set is inspected. distinct = (method, signer class, scopes, address shape, amount class, outcome); non-trivial = changed storage, faulted or refused.",
 		Assumptions: []string{"neo-go v0.107.0 VM, ledger and native contracts are the trusted base", "authorisation oracle is the weak form: a signer with any scope but None counts as that account's witness"},
 		Batches:     tierN(256, 4096),
 		Helpers:     []string{"holder"},
 		Chunk:       8,
-		Floors:      []string{"debit-by-owner-witness", "debit-by-calling-contract", "debit-by-alphabet", "refused-foreign-signer", "refused-wrong-scope", "refused-foreign-contract-caller"},
+		Floors:      []string{"debit-by-owner-witness", "debit-by-calling-contract", "debit-by-alphabet", "refused-foreign-signer", "refused-wrong-scope", "refused-foreign-contract-caller", "direct-epoch-unlock-refused"},
 		Run:         func(b *runner.Batch) { runBalance(b, "C02") },
 	})
 	runner.Register(&runner.Check{
@@ -193,6 +193,9 @@ func runBalance(b *runner.Batch, mode string) {
 					return e.opBurn(hostile)
 				case k < 18:
 					return e.opLock(false)
+				case k < 19:
+					// epoch unlock asked for directly, by every signer class (seeded change C02-3)
+					return e.opBalTick()
 				default:
 					return e.opTick()
 				}
